@@ -22,7 +22,7 @@ CLAIMED = {
             'to that value, and the printed text is such a text; text with two unbracketed slashes at one level is rejected '
             '(RuntimeError at top level, AssertionError inside brackets); and carried to the output of the parser: every category '
             'of every tree run returns is well-formed and reads back from its own text when the caller\'s categories and the unary '
-            'targets are (output_cats_roundtrip). Model (tokenizer, shift-reduce loop, printer) is '
+            'targets are (output_cats_roundtrip); the range of the reader is characterised exactly (parse_wf_partial: every value read is ReadWF = well-formed up to stray square brackets as atom names / any token as a one-part feature, and every such value reads back from its own text; the unrestricted claim is refuted: parse_wf_original_false, replayed on the real reader) and read-print-read is the identity (parse_idem). Model (tokenizer, shift-reduce loop, printer) is '
             'diffed against Category.parse/str on ~45k texts per run incl. every shipped category string and a malformed '
             'stream; an independent recursive-descent reader is the oracle.',
             NOTE + 'inputs on which the real reader builds ill-typed objects are outside the model (reported as Unsupported, not compared).',
@@ -225,7 +225,7 @@ CLAIMED.update({
             'DESIGN.md §4 C07'),
     'C19': (T_PROOF,
             'Proved, at the level of the whole program (main_total_partial): whatever the input lines and scores, the model of the '
-            'program prints a text in every format it models (all eleven executable ones; for xml / jigg_xml under the necessary hypothesis that the inputs are XML text: main_total_xml, main_xml_refuses), for both shipped grammars (the unrestricted statement is refuted by a '
+            'program prints a text in every format it models (program_total: from the configuration on, whenever every string read as a category is one — no well-formedness hypothesis left; all eleven executable formats; for xml / jigg_xml under the necessary hypothesis that the inputs are XML text: main_total_xml, main_xml_refuses), for both shipped grammars (the unrestricted statement is refuted by a '
             'category *value* no text denotes: an atom named NP\\NP; replayed on the real code). '
             'Proved: label closure of both grammars (C03/C04) is contained in the printers\' label tables, which are re-emitted '
             'from the imported modules on every run and checked equal to the model tables by kernel evaluation; every line / XML / '
